@@ -25,7 +25,8 @@ def noCRLF (b : Bytes) : Bool := !b.contains 13 && !b.contains 10
 /-- spec on the implementation's bytes: a strict reader finds exactly one start line and exactly as
 many fields as the state predicts (`expected`), every name valid and every value free of CR/LF. -/
 def specHead (wire start : Bytes) (fields : List (Bytes × Bytes)) : Bool × String :=
-  if !noCRLF start then (true, "start-line-has-crlf(outside C05)")
+  -- since /repo 910b0dd the request line is part of the claim: SP/CR/LF of method and request URI are percent-encoded
+  if !noCRLF start then (false, "CR or LF in the start line")
   else match Spec.Head.parseHead wire with
     | none => (false, "strict reader rejects the serialised head")
     | some (s, fs, rest) =>
